@@ -47,6 +47,8 @@ func (h handler) PostV(ctx context.Context, req *api.V, p api.PostVParams) (api.
 	}
 	return req, nil
 }
+func (h handler) GetSec(ctx context.Context) error  { *h.called++; return h.err() }
+func (h handler) GetSec2(ctx context.Context) error { *h.called++; return h.err() }
 func (h handler) err() error {
 	switch *h.outcome {
 	case "error":
@@ -68,6 +70,17 @@ func (sec) HandleKey(ctx context.Context, op api.OperationName, t api.Key) (cont
 
 func (sec) Key(ctx context.Context, op api.OperationName) (api.Key, error) {
 	return api.Key{APIKey: "good"}, nil
+}
+
+func (sec) HandleK2(ctx context.Context, op api.OperationName, t api.K2) (context.Context, error) {
+	if t.APIKey == "good2" {
+		return ctx, nil
+	}
+	return ctx, errors.New("bad key")
+}
+
+func (sec) K2(ctx context.Context, op api.OperationName) (api.K2, error) {
+	return api.K2{APIKey: "good2"}, nil
 }
 
 type capture struct {
@@ -211,6 +224,17 @@ func main() {
 	grab("putO-empty")
 	_ = client.PostM(ctx, &api.PostMReq{A: "abc", F: ht.MultipartFile{Name: "f.txt", File: strings.NewReader("file-content")}})
 	grab("postM")
+	_ = client.GetSec(ctx)
+	grab("getSec")
+	_ = client.GetSec2(ctx)
+	grab("getSec2")
+	if capt := valids[len(valids)-1].req; capt.Header.Get("X-Key") == "" || capt.URL.Query().Get("k2") == "" {
+		// the client sends the first alternative it can satisfy; the faults below need both credentials on the wire
+		q := capt.URL.Query()
+		q.Set("k2", "good2")
+		capt.URL.RawQuery = q.Encode()
+		capt.Header.Set("X-Key", "good")
+	}
 
 	var evals, skipped int64
 	unknownLength := false // the body length is not announced (chunked transfer): ContentLength -1
@@ -332,6 +356,9 @@ func main() {
 			}
 			for _, m := range []string{"GET", "DELETE", strings.ToLower(v.req.Method), "", "PATCH"} {
 				m := m
+				if m == v.req.Method {
+					continue // not a fault for this operation
+				}
 				mut("method="+m, "route", func(r *http.Request) { r.Method = m })
 			}
 			for _, p := range []string{"/", "/nope", v.req.URL.Path + "/", v.req.URL.Path + "/x", "/" + strings.Repeat("a", 70000), ""} {
@@ -383,6 +410,27 @@ func main() {
 				mut("credential missing", "security", func(r *http.Request) { r.Header.Del("X-Key") })
 				mut("credential rejected", "security", func(r *http.Request) { r.Header.Set("X-Key", "evil") })
 				mut("credential empty", "security", func(r *http.Request) { r.Header.Set("X-Key", "") })
+			}
+			setQ := func(r *http.Request, k, val string, del bool) {
+				q := r.URL.Query()
+				if del {
+					q.Del(k)
+				} else {
+					q.Set(k, val)
+				}
+				r.URL.RawQuery = q.Encode()
+			}
+			switch v.name {
+			case "getSec": // Key AND K2
+				mut("credential Key missing", "security", func(r *http.Request) { r.Header.Del("X-Key") })
+				mut("credential Key rejected", "security", func(r *http.Request) { r.Header.Set("X-Key", "evil") })
+				mut("credential K2 missing", "security", func(r *http.Request) { setQ(r, "k2", "", true) })
+				mut("credential K2 rejected", "security", func(r *http.Request) { setQ(r, "k2", "evil", false) })
+				mut("credential K2 empty", "security", func(r *http.Request) { setQ(r, "k2", "", false) })
+			case "getSec2": // K2 OR Key: one credential missing leaves the other alternative
+				mut("credential Key missing", "none", func(r *http.Request) { r.Header.Del("X-Key") })
+				mut("credential K2 missing", "none", func(r *http.Request) { setQ(r, "k2", "", true) })
+				mut("credential both missing", "security", func(r *http.Request) { r.Header.Del("X-Key"); setQ(r, "k2", "", true) })
 			}
 			if len(v.body) > 0 {
 				isJSON := strings.Contains(v.req.Header.Get("Content-Type"), "json")
